@@ -13,7 +13,7 @@ import numpy as np
 import xarray as xr
 
 import facegrid as fg
-from common import RULES, dyadic, enc_rat, exc_kind
+from common import RULES, dyadic, enc_rat, exc_kind, fillv
 
 RULE = ("random reciprocated tables of 2-6 faces (random joins of free sides: all 8 link kinds, "
         "self-links), N in 2..5, widths 0..min(3,N) per side per axis (one or both axes named), every rule "
@@ -52,7 +52,7 @@ def gen_case(rng, tier, i):
     case = {"nf": nf, "N": N, "tbl": {str(f): v for f, v in tbl.items()}, "extra": extra, "vec": vax,
             "dims": list(dims), "order": order, "widths": widths,
             "boundary": {"X": rng.choice(RULES), "Y": rng.choice(RULES)},
-            "fill": {"X": dyadic(rng), "Y": dyadic(rng)},
+            "fill": {"X": fillv(rng), "Y": fillv(rng)},
             "call_boundary": rng.choice([None, None, "fill", "extend", {"X": "extend"}]),
             "data": rngdata(), "partner": rngdata() if vec else None}
     return case
